@@ -84,7 +84,7 @@ def get_facts(config="default", src_root="/repo", target_dir=None, use_cache=Tru
             for d in os.listdir(fp):
                 if d.startswith("sux-"):
                     shutil.rmtree(os.path.join(fp, d), ignore_errors=True)
-        tmp_out = out + ".new"
+        tmp_out = out + ".new.%d" % os.getpid()
         if os.path.exists(tmp_out):
             os.remove(tmp_out)
         env = dict(os.environ)
